@@ -70,6 +70,11 @@ class Ctx:
     # ---- anchors
     def fn(self, qn):
         f = self.M.funcs.get(qn)
+        if f is None and '.' in qn:
+            # a method the class inherits (e.g. a helper hoisted into the base class) is the class's method all the same
+            cname, mname = qn.rsplit('.', 1)
+            c = self.M.cls(cname)
+            f = c.lookup(mname) if c is not None else None
         if f is None:
             raise Undecided('anchor function %s not found' % qn)
         return f
